@@ -164,6 +164,9 @@ structure Attempt where
   setSync : Bool := true         -- setReadMode(sid, Sync)
   send : Bool := true            -- sendSync(...).isOk()
   recvs : List RecvEv := []      -- one per loop iteration; after the list the peer is silent (next receive times out)
+  residue : Bool := false        -- residualDataPending(sid): the transport still holds received bytes that the framer was
+                                 -- never handed (surplus behind a message that ended exactly on a read boundary), a peer
+                                 -- close or an error; asked only for a connection that is otherwise reusable
   setAsync : Bool := true        -- setReadMode(sid, Async), asked only for a reusable connection
   deriving Repr
 
@@ -294,15 +297,17 @@ def recvLoop : List RecvEv → Nat → RecvRes × Nat
        | none => recvLoop rest (n + 1))
 
 /-- one conjunct of `reusable` -/
-def evalReuse (cfg : Cfg) (r : RespInfo) (forceEvict closeDelimited : Bool) (atom : String) : Bool :=
+def evalReuse (cfg : Cfg) (r : RespInfo) (forceEvict closeDelimited residue : Bool) (atom : String) : Bool :=
   if atom = "reuseConnections" then cfg.reuse
   else if atom = "notCloseSignalled" then !responseRequestsClose r.conn r.version
   else if atom = "notForceEvict" then !forceEvict
   else if atom = "notCloseDelimited" then !closeDelimited
+  else if atom = "noResidue" then !residue
   else true
 
-def reusable (cfg : Cfg) (r : RespInfo) (forceEvict closeDelimited : Bool) : Bool :=
-  Gen.HttpRetry.reusableAtoms.all (evalReuse cfg r forceEvict closeDelimited)
+/-- `reusable`: the conjunction in source order (`residue` = answer of the residual-data probe, its last conjunct) -/
+def reusable (cfg : Cfg) (r : RespInfo) (forceEvict closeDelimited residue : Bool) : Bool :=
+  Gen.HttpRetry.reusableAtoms.all (evalReuse cfg r forceEvict closeDelimited residue)
 
 /-- what one `executeRequest` call did -/
 structure AttemptLog where
@@ -326,7 +331,7 @@ def underLease (cfg : Cfg) (c : Client) (h : Host) (a : Attempt) : Client × Att
         let (c2, ev2) := dropConnection c1 h sid
         (c2, ⟨.error e, true, n⟩, ev ++ [.send sid] ++ ev2)
       | (.done r fe cd, n) =>
-        if reusable cfg r fe cd && a.setAsync then
+        if reusable cfg r fe cd a.residue && a.setAsync then
           (c1, ⟨.ok r, true, n⟩, ev ++ [.send sid])
         else
           let (c2, ev2) := dropConnection c1 h sid
